@@ -165,15 +165,15 @@ CHECK_DEADLOCK FALSE
 
 
 def validate_once(spec, trace_path, sched, kfs=None, timeout=1200):
-    kfline = ""
-    if kfs is not None:
-        kfline = "CONSTANT KFS = {" + ", ".join('"%s"' % k for k in sorted(kfs)) + "}\n"
+    if kfs is None:
+        kfs = [f["id"] for f in known_findings()["findings"]]
+    kfline = "CONSTANT KFS = {" + ", ".join('"%s"' % k for k in sorted(kfs)) + "}\n"
     rc, out = tlc(spec, TRACE_CFG.format(sched=sched, kfs=kfline), {"TRACE": trace_path},
                   workers=1, timeout=timeout, dfs=True, tag="tv")
-    res = {"accepted": False, "timeout": rc == 124, "rejected_at": None, "kfhits": [0, 0], "out": out}
-    m = re.search(r'<<"KFHITS", (\d+), (\d+)>>', out)
+    res = {"accepted": False, "timeout": rc == 124, "rejected_at": None, "kfhits": [0, 0, 0], "out": out}
+    m = re.search(r'<<"KFHITS", (\d+), (\d+), (\d+)>>', out)
     if m:
-        res["kfhits"] = [int(m.group(1)), int(m.group(2))]
+        res["kfhits"] = [int(m.group(1)), int(m.group(2)), int(m.group(3))]
     gen, dist = parse_counts(out)
     res["states"] = dist
     if "No error has been found" in out:
@@ -196,7 +196,25 @@ CHECK_DEADLOCK FALSE
 
 
 def validate_simple(run, spec, trace_path, consts="", marker='"e":"tcase"', label="", max_rejections=4, env=None):
-    """single-pass validation of a trace made of cases that each start with a marker line"""
+    """validation of a trace made of cases that each start with a marker line, in chunks of whole cases"""
+    lines = open(trace_path).read().splitlines()
+    if len(lines) <= CHUNK_LINES:
+        return _validate_simple(run, spec, trace_path, consts, marker, label, max_rejections, env)
+    chunk, n = [], 0
+    for l in lines + [None]:
+        if (l is None or marker in l) and chunk and (l is None or len(chunk) >= CHUNK_LINES):
+            p = f"{trace_path}.chunk{n}"
+            with open(p, "w") as f:
+                f.write("\n".join(chunk) + "\n")
+            _validate_simple(run, spec, p, consts, marker, f"{label}#{n}", max_rejections, env)
+            os.remove(p)
+            chunk = []
+            n += 1
+        if l is not None:
+            chunk.append(l)
+
+
+def _validate_simple(run, spec, trace_path, consts="", marker='"e":"tcase"', label="", max_rejections=4, env=None):
     t0 = time.time()
     lines = open(trace_path).read().splitlines()
     ncases = sum(1 for l in lines if marker in l)
@@ -290,14 +308,14 @@ def _validate_trace(run, spec, trace_path, kfs=None, label="", max_rejections=4)
     remaining = lines
     rejections = 0
     states = 0
-    kfh = [0, 0]
+    kfh = [0, 0, 0]
     tmp = trace_path + ".part"
     while remaining:
         with open(tmp, "w") as f:
             f.write("\n".join(remaining) + "\n")
         r = validate_once(spec, tmp, "fifo", kfs)
         states += r["states"]
-        kfh = [kfh[0] + r["kfhits"][0], kfh[1] + r["kfhits"][1]]
+        kfh = [a + b for a, b in zip(kfh, r["kfhits"])]
         if r["accepted"]:
             break
         if r["rejected_at"] is None:
@@ -311,6 +329,7 @@ def _validate_trace(run, spec, trace_path, kfs=None, label="", max_rejections=4)
         r2 = validate_once(spec, one, "any", kfs, timeout=240)
         if r2["accepted"]:
             run.fifo_mismatch += 1
+            kfh = [a + b for a, b in zip(kfh, r2["kfhits"])]
         elif r2["rejected_at"] is not None:
             bad = case_lines[min(r2["rejected_at"], len(case_lines)) - 1]
             run.violation(spec, case_lines, r2["rejected_at"], label)
@@ -326,7 +345,7 @@ def _validate_trace(run, spec, trace_path, kfs=None, label="", max_rejections=4)
         if os.path.exists(p):
             os.remove(p)
     run.traces += max(ncases, 0)
-    run.kfhits = [run.kfhits[0] + kfh[0], run.kfhits[1] + kfh[1]]
+    run.kfhits = [a + b for a, b in zip(run.kfhits, kfh)]
     run.stages.append({"stage": label or spec, "kind": "trace-validation", "spec": spec,
                        "cases_accepted": max(ncases, 0), "rejections": rejections,
                        "validator_states": states, "wall_s": round(time.time() - t0, 1)})
@@ -461,7 +480,7 @@ class Run:
         self.violations = 0
         self.fifo_mismatch = 0
         self.inconclusive = 0
-        self.kfhits = [0, 0]
+        self.kfhits = [0, 0, 0]
         self.known_printed = set()
         self.assumptions = []
         self.level = "model_checking"
@@ -505,7 +524,7 @@ class Run:
                "traces_validated_against_impl": self.traces, "samples": self.samples or ["(none)"],
                "stages": self.stages, "fifo_order_mismatches": self.fifo_mismatch,
                "inconclusive_cases": self.inconclusive,
-               "known_finding_hits": {"D9": self.kfhits[0], "D10": self.kfhits[1]},
+               "known_finding_hits": {"D9": self.kfhits[0], "D10": self.kfhits[1], "D12": self.kfhits[2]},
                "checker_cmd": f"./check {self.prop} --tier {self.tier}"}
         cov.update(self.extra)
         if self.level != "model_checking" or self.states == 0:
@@ -579,6 +598,24 @@ def replay(path):
         print(json.dumps(r, indent=1)[:6000])
         print("replay: outcome", "EQUALS" if r["ok"] else "DIFFERS FROM", "the sequential reference")
         return 0 if r["ok"] else 1
+    if rep.get("kind") == "crash":
+        # the process died while handling one step of this case: run the case again, alone
+        build_harness()
+        d = os.path.join(WORK, "replay")
+        cp, tp = os.path.join(d, "crash.cases"), os.path.join(d, "crash.trace")
+        with open(cp, "w") as f:
+            f.write(json.dumps(rep["case"]) + "\n")
+        try:
+            run_harness(cp, tp)
+        except HarnessCrash as e:
+            print("replay: the harness process died again:", str(e)[:400])
+            return 1
+        print("replay: the case now runs to its end")
+        return 0
+    if rep.get("kind") == "timer-id-reuse":
+        print(json.dumps(rep, indent=1))
+        print("replay: ids are process-wide; run ./check C18 again to re-execute the whole timer trace")
+        return 1
     tr = rep["trace"]
     head, end = tr[0], tr[-1]
     case = {"name": "replay", "host": head["host"], "progs": head["progs"], "follow": head.get("follow", {}),
